@@ -74,7 +74,7 @@ def main(ctx):
     # real processes: locked increments, visibility; type sweep (data clause)
     rc, data, log = sandbox.run_driver('harness.shared_main', [ctx.tier], timeout=600)
     if rc != 0 or data is None:
-        raise RuntimeError('shared-memory driver failed (rc=%s): %s' % (rc, log[-1500:]))
+        sandbox.driver_failed('shared-memory', rc, log)
     obs = [c['obs'] for c in data['counters']]
     _, verdicts = monitor.check('CounterMonitor', obs, invariants=['FinalIsCount'],
                                 properties=['NoLostUpdate', 'ExclusiveHold'], constants={'MaxVal': '100000'})
